@@ -133,9 +133,10 @@ class Driver:
         return [(i, t.username, t.state.VALUE.name) for i, t in enumerate(self.ts)]
 
     def users_now(self):
-        fr = self.tw.w.settings.users.friends
-        return {n: (self.tw.um.get_user_object(n).status.name, bool(self.tw.um.get_user_object(n).privileged), n in fr)
-                for n in self.tw.names}
+        """What the server / the user told the client about each user (the inputs of the decision), kept by the harness
+        according to the protocol: GetUserStatus carries status and privilege, AddUser only the status, AddPrivilegedUser /
+        PrivilegedUsers only the privilege.  NOT read from the client's own user objects."""
+        return {n: tuple(self.info[n]) for n in self.tw.names}
 
     def observe(self, evs, sel):
         codes = [code_of(t) for t in self.ts]
@@ -337,14 +338,25 @@ class Driver:
             u, st, priv = op[1], op[2], op[3]
             if u < len(tw.names):
                 tw.set_status(self.uname(u), STATUS[st], priv)
+                self.info[self.uname(u)][0:2] = [st, priv]
                 evs.append(f'Status {u} {ST_COQ[st]} {"true" if priv else "false"}')
+        elif kind == 'AddU':   # the server's reply to a tracking request: the user exists and has this status (no privilege field)
+            u, st = op[1], op[2]
+            if u < len(tw.names):
+                from aioslsk.protocol.messages import AddUser
+                from aioslsk.protocol.primitives import UserStats
+                tw.w.server_send(AddUser.Response(self.uname(u), exists=True, status=STATUS[st], user_stats=UserStats(1, 2, 3, 4), country_code='BE'))
+                tw.settle(60)
+                self.info[self.uname(u)][0] = st
+                evs.append(f'Status {u} {ST_COQ[st]} {"true" if self.info[self.uname(u)][1] else "false"}')
         elif kind == 'Priv':   # the server announces that user u bought privileges (AddPrivilegedUser; no status message)
             u = op[1]
             if u < len(tw.names):
                 from aioslsk.protocol.messages import AddPrivilegedUser
-                st = tw.um.get_user_object(self.uname(u)).status.name
+                st = self.info[self.uname(u)][0]
                 tw.w.server_send(AddPrivilegedUser.Response(self.uname(u)))
                 tw.settle(60)
+                self.info[self.uname(u)][1] = True
                 evs.append(f'Status {u} {ST_COQ[st]} true')
         elif kind == 'PrivList':   # the server sends the complete list of privileged users (PrivilegedUsers)
             from aioslsk.protocol.messages import PrivilegedUsers
@@ -352,12 +364,14 @@ class Driver:
             tw.w.server_send(PrivilegedUsers.Response(users=[self.uname(x) for x in lst] + ['nobody-we-know']))
             tw.settle(60)
             for x in range(len(tw.names)):
-                st = tw.um.get_user_object(self.uname(x)).status.name
+                st = self.info[self.uname(x)][0]
+                self.info[self.uname(x)][1] = x in lst
                 evs.append(f'Status {x} {ST_COQ[st]} {"true" if x in lst else "false"}')
         elif kind == 'F':
             u, b = op[1], op[2]
             if u < len(tw.names):
                 tw.set_friend(self.uname(u), b, replace=(len(op) > 3 and op[3] == 'replace'))
+                self.info[self.uname(u)][2] = b
                 evs.append(f'Friend {u} {"true" if b else "false"}')
         elif kind == 'Rel':    # the server finally answers the held GetPeerAddress requests for user u
             u = op[1]
@@ -431,8 +445,10 @@ def next_op(rng, d: Driver, free_running=False):
         return ['St', rng.randrange(nu), rng.choice(['OFFLINE', 'AWAY', 'ONLINE']), rng.random() < 0.3]
     if r < 0.975:
         return ['F', rng.randrange(nu), rng.random() < 0.6, rng.choice(['mutate', 'replace'])]
-    if r < 0.99:
+    if r < 0.985:
         return ['Priv', rng.randrange(nu)]
+    if r < 0.993:
+        return ['AddU', rng.randrange(nu), rng.choice(['ONLINE', 'AWAY'])]
     return ['PrivList', sorted(rng.sample(range(nu), rng.randrange(0, nu + 1)))]
 
 
@@ -482,6 +498,10 @@ def reprioritise_script(rng):
     ops += [['Q', u] for u in order] + [['C'], ['R'], ['C']]
     for _ in range(rng.randrange(1, 3)):
         u = rng.randrange(n)
+        if rng.random() < 0.4:     # privilege announced, then the tracking reply for the same user arrives (status only)
+            ops += [rng.choice([['Priv', u], ['PrivList', sorted(set(rng.sample(range(n), rng.randrange(1, n))) | {u})]]),
+                    ['AddU', u, rng.choice(['ONLINE', 'AWAY'])]]
+            continue
         ops.append(rng.choice([['Priv', u], ['Priv', u], ['PrivList', sorted(rng.sample(range(n), rng.randrange(1, n)))],
                                ['F', u, rng.random() < 0.7], ['St', u, rng.choice(['ONLINE', 'AWAY']), rng.random() < 0.5]]))
     # give slots back: the peers of the active uploads refuse / the user aborts them
